@@ -35,8 +35,9 @@ impl Prop for C17 {
             1000,
             vec![comm(100, 100, "app", 1000), fork(100, 101, 100, 100, 1100), fork(100, 102, 100, 101, 1150), sample(100, 101, 1200), sample(100, 102, 1300), exit(100, 100, 2000), sample(200, 200, 2100)],
         );
-        // … and (candidate finding C17-phantom-process-on-thread-exit) with the sibling EXITs after it
-        if finding_enabled(FINDING_PHANTOM) {
+        // … and with the sibling EXITs after it: they find no process and are ignored (fix 8ede2c85; before,
+        // `handle_exit` created a phantom process entry `<pid>` through `get_by_pid`)
+        {
             add(
                 &mut v,
                 "orphan-exit-minimal",
@@ -48,6 +49,15 @@ impl Prop for C17 {
                 "orphan-exit-two-siblings",
                 1000,
                 vec![comm(100, 100, "app", 1000), fork(100, 101, 100, 100, 1100), fork(100, 102, 100, 100, 1150), sample(100, 101, 1200), sample(100, 102, 1300), exit(100, 100, 2000), exit(100, 102, 2001), exit(100, 101, 2002), sample(200, 200, 2100)],
+            );
+            // the minimal input of the repaired finding (alone it yields no entry at all), and an orphan EXIT
+            // followed by records of the same pid (a fresh on-demand incarnation `100.1`, created by the sample)
+            add(&mut v, "orphan-exit-lone", 1000, vec![exit(100, 101, 2000), sample(200, 200, 2100)]);
+            add(
+                &mut v,
+                "orphan-exit-then-records",
+                1000,
+                vec![comm(100, 100, "app", 1000), fork(100, 101, 100, 100, 1100), exit(100, 100, 2000), exit(100, 101, 2000), sample(100, 101, 2500), comm(100, 100, "again", 2600), exit(100, 101, 2700), exit(100, 100, 2800), exit(100, 101, 2900)],
             );
             add(&mut v, "orphan-exit-never-seen-pid", 0, vec![comm(100, 100, "app", 1000), sample(100, 100, 1200), exit(300, 301, 1500), sample(100, 100, 1600)]);
         }
@@ -184,6 +194,20 @@ impl Prop for C17 {
             stats.bump("not_judged_reuse");
         } else {
             stats.bump("not_judged_grammar");
+        }
+        {
+            let mut lt = LifeTrack::new(h.ref_time);
+            let mut n_orphan = 0;
+            for r in &h.recs {
+                if lt.orphan_thread_exit(r) {
+                    n_orphan += 1;
+                }
+                lt.step(r);
+            }
+            stats.add("orphan_thread_exits", n_orphan);
+            if n_orphan > 0 {
+                stats.bump("cases_with_orphan_thread_exit");
+            }
         }
         let dir = work_tmp("C17");
         let tag = format!("c{:016x}", fnv1a(ops));
